@@ -190,8 +190,9 @@ enum Op {
     Burst(usize),
     Remove,
     Restart,
-    // the node hands the signer the preimage of the incoming HTLC (not an operation of the model)
-    Fulfill(Key),
+    // the node hands the signer the preimage of the incoming HTLC (not an operation of the model);
+    // true = some later request that writes the node entry (add_keysend) follows at once
+    Fulfill(Key, bool),
 }
 
 #[derive(Clone, Debug, PartialEq)]
@@ -232,7 +233,6 @@ struct Sess {
     given: BTreeSet<Key>,
     frozen: BTreeMap<Key, bool>,
     incoming_c: BTreeMap<u64, (Key, String, String)>, // commitment id -> (channel, kind if claimable, kind if not)
-    write_node_entry_after_fulfill: bool,
     keysends: u8,
     last: View,
     // the record
@@ -281,7 +281,6 @@ impl Sess {
             given: BTreeSet::new(),
             frozen: BTreeMap::new(),
             incoming_c: BTreeMap::new(),
-            write_node_entry_after_fulfill: true,
             keysends: 0,
             last: View { mem: BTreeMap::new(), disk: vec![], hwm_mem: 0, hwm_disk: 0, height: 0 },
             coq_ops: vec![],
@@ -576,9 +575,9 @@ impl Sess {
 
     /// The node learned the preimage of the HTLC offered to us and hands it to the signer the way
     /// the in-process (loopback) signer does: Channel::htlcs_fulfilled right before the next
-    /// commitment request, here the counterparty's commitment 1 signed again.  In the registered
-    /// run a later request that writes the node entry follows (add_keysend); the probe leaves it out.
-    fn fulfill(&mut self, key: Key) {
+    /// commitment request, here the counterparty's commitment 1 signed again.  With
+    /// [write_node_entry] a later request that happens to write the node entry follows (add_keysend).
+    fn fulfill(&mut self, key: Key, write_node_entry: bool) {
         let node = self.node.clone();
         let id0 = self.chans[&key].id0.clone();
         let hinfo = self.incoming_htlc(key);
@@ -591,7 +590,7 @@ impl Sess {
         })
         .expect("htlcs_fulfilled + commitment");
         let mut wrote = false;
-        if self.write_node_entry_after_fulfill {
+        if write_node_entry {
             self.keysends += 1;
             let secp = Secp256k1::new();
             let payee = PublicKey::from_secret_key(&secp, &lightning_signer::bitcoin::secp256k1::SecretKey::from_slice(&[3u8; 32]).unwrap());
@@ -904,7 +903,7 @@ impl Sess {
         let mut code: u64 = 0;
         let mut panicked = false;
         let mut new_dbid_ok: Option<Key> = None;
-        if let Op::Fulfill(key) = op {
+        if let Op::Fulfill(key, write) = op {
             // only for a ready channel with an incoming HTLC whose closing commitment has not been
             // seen on chain yet (the classification of a confirmed close must not change)
             let ok = matches!(self.last.mem.get(key), Some(SlotView::Ready { .. }))
@@ -912,7 +911,7 @@ impl Sess {
                 && !self.frozen.contains_key(key)
                 && !self.given.contains(key);
             if ok {
-                self.fulfill(*key);
+                self.fulfill(*key, *write);
             }
             return true;
         }
@@ -926,7 +925,7 @@ impl Sess {
             }
         }
         match op {
-            Op::Fulfill(_) => unreachable!(),
+            Op::Fulfill(_, _) => unreachable!(),
             Op::New(key) => {
                 let key = *key;
                 self.chan(key);
@@ -1382,12 +1381,16 @@ fn scripted(args: &Args) {
     // entry), restart, close, only our main output swept: the HTLC output is still ours to claim
     let i3: Key = (0, 3);
     scripts.push(("incoming-htlc-preimage-then-restart", 1000, vec![
-        New(i3), Setup(i3, n.clone()), Fulfill(i3), Restart, Add(vec![tid(0, F)]), Add(vec![tid(0, C)]), Add(vec![tid(0, S)]), Forget(i3),
+        New(i3), Setup(i3, n.clone()), Fulfill(i3, false), Restart, Add(vec![tid(0, F)]), Add(vec![tid(0, C)]), Add(vec![tid(0, S)]), Forget(i3),
         Burst(md), Heartbeat, Restart, Heartbeat, Add(vec![tid(0, H)]), Burst(md), Heartbeat, Add(vec![tid(0, X)]),
         Burst(md.saturating_sub(2)), Heartbeat, Add(vec![]), Heartbeat,
     ]));
+    scripts.push(("incoming-htlc-preimage-node-entry-written-then-restart", 1000, vec![
+        New(i3), Setup(i3, n.clone()), Fulfill(i3, true), Restart, Add(vec![tid(0, F)]), Add(vec![tid(0, C)]), Add(vec![tid(0, S)]), Forget(i3),
+        Burst(md), Heartbeat, Restart, Heartbeat,
+    ]));
     scripts.push(("incoming-htlc-preimage-no-restart", 1000, vec![
-        New(i3), Setup(i3, n.clone()), Add(vec![tid(0, F)]), Fulfill(i3), Add(vec![tid(0, C), tid(0, S)]), Forget(i3),
+        New(i3), Setup(i3, n.clone()), Add(vec![tid(0, F)]), Fulfill(i3, false), Add(vec![tid(0, C), tid(0, S)]), Forget(i3),
         Burst(md), Heartbeat, Add(vec![tid(0, H), tid(0, X)]), Burst(md.saturating_sub(1)), Heartbeat,
     ]));
     // the same without the preimage: the HTLC output is not ours, the close is swept with the main output
@@ -1426,7 +1429,7 @@ fn random(args: &Args, malformed: bool) {
             let k: Key = (rng.below(2), 3);
             let mut pre: Vec<Op> = vec![Op::New(k), Op::Setup(k, SetupKind::Normal)];
             if rng.chance(2, 3) {
-                pre.push(Op::Fulfill(k));
+                pre.push(Op::Fulfill(k, rng.chance(1, 3)));
             }
             if rng.chance(1, 2) {
                 pre.push(Op::Restart);
@@ -1596,7 +1599,7 @@ fn random(args: &Args, malformed: bool) {
                 }
                 _ => {
                     let inc: Vec<Key> = ready.iter().cloned().filter(|k| s.chans[k].incoming && !s.frozen.contains_key(k) && !s.given.contains(k)).collect();
-                    if !inc.is_empty() && rng.chance(1, 2) { Op::Fulfill(*rng.pick(&inc)) } else { Op::Restart }
+                    if !inc.is_empty() && rng.chance(1, 2) { Op::Fulfill(*rng.pick(&inc), rng.chance(1, 3)) } else { Op::Restart }
                 }
             };
             if matches!(op, Op::Remove) {
@@ -1619,8 +1622,8 @@ fn random(args: &Args, malformed: bool) {
     emit("STATS", json!({"domain": if malformed { "prune-malformed" } else { "prune-random" }, "stats": stats}));
 }
 
-/// NOT part of the registered run.  The history the coordinator asked about, against the tree as
-/// it is: the preimage is handed over through htlcs_fulfilled + a commitment request and NO later
+/// Not called by the registered run (the same two histories are in `scripted` now).  The history
+/// that showed the defect repaired by "persist the node entry when htlcs_fulfilled records a preimage": the preimage is handed over through htlcs_fulfilled + a commitment request and NO later
 /// request writes the node entry; restart; counterparty force close with the HTLC pending; only
 /// the main output swept; forget; MIN_DEPTH blocks; heartbeat.
 fn probe(args: &Args) {
@@ -1632,9 +1635,8 @@ fn probe(args: &Args) {
     let n = SetupKind::Normal;
     for (name, write) in [("probe-preimage-without-node-entry-write", false), ("probe-preimage-with-node-entry-write", true)] {
         let mut s = Sess::new(consts, 1000);
-        s.write_node_entry_after_fulfill = write;
         let ops = vec![
-            New(i3), Setup(i3, n.clone()), Fulfill(i3), Restart, Add(vec![tid(0, F)]), Add(vec![tid(0, C)]), Add(vec![tid(0, S)]), Forget(i3),
+            New(i3), Setup(i3, n.clone()), Fulfill(i3, write), Restart, Add(vec![tid(0, F)]), Add(vec![tid(0, C)]), Add(vec![tid(0, S)]), Forget(i3),
             Burst(md), Heartbeat, Restart, Heartbeat,
         ];
         for op in ops.iter() {
